@@ -24,11 +24,11 @@ for cand in ('demo',):
     if os.path.exists(out + '/' + cand): demo = out + '/' + cand
 rc1, o1 = sh(demo)
 res['demo_with_change'] = 'exit %d: %s' % (rc1, o1.strip()[-200:])
-sh('git stash', wt)
+sh('git diff > /tmp/keepseed.%d.diff && git apply -R /tmp/keepseed.%d.diff' % (os.getpid(), os.getpid()), wt)
 rc, o = sh(meta['build_cmd'])
 rc0, o0 = sh(demo)
 res['demo_without_change'] = 'exit %d: %s' % (rc0, o0.strip()[-200:])
-sh('git stash pop', wt)
+sh('git apply /tmp/keepseed.%d.diff; rm -f /tmp/keepseed.%d.diff' % (os.getpid(), os.getpid()), wt)
 print(json.dumps(res, indent=1))
 if not ('SUCCESS' in res['suite_with_change'] and rc1 != 0 and rc0 == 0):
     print('NOT CONFIRMED'); sys.exit(1)
